@@ -175,6 +175,11 @@ pub trait Scheme: Sized + 'static {
     fn transcript_binds_weakly(_w: &crate::scen::World<Self>, _p: &Self::P) -> bool {
         false
     }
+    /// Does the scheme use the trait's default open_combinations / check_combinations (which skip query-set entries
+    /// whose label names none of the given combinations)?
+    fn default_combinations() -> bool {
+        matches!(Self::NAME, "hyrax" | "ligero-uni" | "ligero-ml" | "brakedown")
+    }
     /// KZG-style proofs: move the blinding evaluation of proof `a` onto proof `b` (the sum of the two is
     /// unchanged). Returns false if the scheme has no such field or `a` carries no non-zero blinding.
     fn move_blinding(
